@@ -149,8 +149,11 @@ def ensure(flavour="plain"):
         for d in BUILD_ROOT.iterdir():
             if d.is_dir() and d.name != hsh:
                 try:
-                    age = max((p.stat().st_mtime for p in d.rglob(".ok")),
-                              default=0)
+                    # a build in progress (another process, another tree)
+                    # has no marker yet: its directory times count too
+                    age = max([p.stat().st_mtime for p in d.rglob(".ok")] +
+                              [d.stat().st_mtime] +
+                              [p.stat().st_mtime for p in d.iterdir()])
                     import time
                     if time.time() - age > 3600:
                         shutil.rmtree(d, ignore_errors=True)
